@@ -33,7 +33,7 @@ REQUIRED_MONITORS = ["pinhole_converges", "slit_length_converges", "slit_width_c
 REQUIRED_BUCKETS = {"quick": ["geom:pinhole", "geom:slit(L,0)", "geom:slit(0,W)", "geom:slit(L,W)", "geom:2d",
                               "f:poly", "f:lorentz2", "f:dampedcos", "window_crosses_zero", "acc:low", "acc:med",
                               "acc:high", "acc:xhigh", "q<W", "sigma:interior-point-widest", "pixel_on_axis", "q_calc:without-data-points", "pixel_with_one_zero_width", "coordinates_rewritten_after_construction", "calculator:copy", "calculator:deepcopy", "calculator:pickle",
-                              "caller-arrays-reused-before-first-apply", "slit:per-point-arrays", "route:data-object-with-some-zero-widths", "q_calc:partly-refined", "q_calc:geometric", "route:data-listed-in-decreasing-q"]}
+                              "caller-arrays-reused-before-first-apply", "slit:per-point-arrays", "route:data-object-with-some-zero-widths", "q_calc:partly-refined", "q_calc:geometric", "route:data-listed-in-decreasing-q", "data-order:not-increasing"]}
 REQUIRED_BUCKETS["thorough"] = REQUIRED_BUCKETS["quick"]
 
 
@@ -172,9 +172,16 @@ def run_1d(case, rec):
             qc = np.unique(grid)
         # the calculator is built from the caller's own arrays, which the caller then reuses for something else
         # before the first curve is smeared: the calculator stays the one that was built
-        q_in = q.copy()
+        # every fourth case lists the data points in another order (scans appended one after another, files written from
+        # high to low q): each value belongs to its own q
+        perm = np.arange(npts)
+        if (case["k"]//3) % 4 == 1:
+            perm = np.array([[2, 0, 1], [2, 1, 0], [1, 2, 0]][case["k"] % 3])
+            if mult == 1:
+                rec.bucket("data-order:not-increasing")
+        q_in = q[perm].copy()
         if geom == "pinhole":
-            s_in = s.copy()
+            s_in = s[perm].copy()
             res = resolution.Pinhole1D(q_in, s_in, q_calc=qc)
             owned = [q_in, s_in]
         elif mult == 2:
@@ -193,7 +200,8 @@ def run_1d(case, rec):
         theory = np.ascontiguousarray(f(res.q_calc), float)
         theory0 = theory.copy()
         got = res.apply(theory)
-        errs.append(np.abs(got - exact))
+        inv_ = np.argsort(perm)
+        errs.append(np.abs(np.asarray(got, float)[inv_] - exact))
         again = res.apply(theory)
         rec.check("input_unchanged_and_repeatable", bool(np.array_equal(theory, theory0) and np.array_equal(got, again)),
                   {"geometry": geom, "theory_changed": not bool(np.array_equal(theory, theory0)),
@@ -208,12 +216,13 @@ def run_1d(case, rec):
         how = ["copy", "deepcopy", "pickle"][(case["k"] + mult) % 3]
         res2 = copy.copy(res) if how == "copy" else copy.deepcopy(res) if how == "deepcopy" else pickle.loads(pickle.dumps(res))
         got2 = res2.apply(np.ascontiguousarray(f(res2.q_calc), float))
-        errs_copy.append((how, np.abs(got2 - exact)))
+        errs_copy.append((how, np.abs(np.asarray(got2, float)[inv_] - exact)))
         rec.bucket("calculator:" + how)
         if S is None:
             # variation of I over the widest window
             xs = np.linspace(max(lo, 0.0), hi, 400)
             S = float(np.ptp(f(xs)))
+    got = np.asarray(got, float)[np.argsort(perm)]          # finest-grid result in increasing-q order (used below)
     ok = True
     worst = 0.0
     for mult, e in zip((4, 2, 1), errs):
